@@ -24,6 +24,8 @@ TRUSTED = ['compiler axioms: the coroutine is resumed immediately iff await_read
            'BaseCore::SetCallbackImpl / Empty (unit base_core), AtomicCounter::SubEqual (unit event: exactly one decrement reaches zero), IExecutor::Submit (C05)']
 DROPPED = ['coroutine_handle<Promise> is the promise object itself (handle.promise() is the identity); Handle{core}.SetCallback(x) is SetCallback(core, x)']
 ASSUMPTIONS = ['the awaited objects complete at most once each (C01 / C06)']
+# real-code drivers that exercise what this unit proves (thorough tier: sanity run on the tree under check)
+DRIVERS = [('coro_await.cpp', ['all', 2000], 'coro')]
 
 COMMON = r'''
 #include "vf.h"
